@@ -503,4 +503,4 @@ def diagnose(neg, attributes, ann: list, wd: list, include_withdraw: bool, neg_f
 
 
 QUICK_SHARDS = 4
-ENGINES = [Engine('collections', model.cases, check, quick=250, thorough=4000, batch=50, fixed_cases=model.boundary_sweep)]
+ENGINES = [Engine('collections', model.cases, check, quick=400, thorough=4000, batch=80, fixed_cases=model.boundary_sweep)]
